@@ -161,4 +161,14 @@ PROPS = {
                        'length octets, OER/PER bit-stream primitives) plus round-trip lemmas over those spec functions proved by '
                        'induction: tc_roundtrip, be_roundtrip_*, der_length_roundtrip, field_cat',
     },
+    'C20': {
+        'assumptions': [GRAPH, 'unique readability of the notation (doubling quotes makes StringValue unambiguous; lists are bracketed) is '
+                        'argued, not proved; str.replace / str.upper / str.lstrip / str(int) are uninterpreted functions',
+                        'SEQUENCE/SET/OF text is only under an unconditional contract (no exception but EncodeError); BIT STRING, '
+                        'OCTET STRING, OBJECT IDENTIFIER, time types and REAL text forms are not under contract'],
+        'trusted_base': [FOREIGN],
+        'explanation': 'GSER leaf encoders against RFC 3641 spec functions (StringValue with doubled quotes, BOOLEAN, INTEGER, NULL, '
+                       'ENUMERATED, CHOICE "id : value"), and the top-level wrapper (the value text is embedded unchanged apart from '
+                       'stripping leading spaces)',
+    },
 }
